@@ -29,8 +29,10 @@ static void (*childMain)(Child*) = 0;
 static Child* inVfork[80];          // per task: the child whose pre-exec code this task is currently executing
 static uint64_t vforkCtx[80][8];
 
-static void resetProc() { for (Child* c : children) delete c; children.clear(); nextPid = 4000; pipeCap = 65536; childMain = 0; memset(inVfork, 0, sizeof inVfork); }
-static struct Reg { Reg() { addResetHook(resetProc); } } reg;
+static char** savedEnviron = 0;   /* the real process environment: restored at the start of every run (code running between vfork and exec shares the parent's memory and may change it) */
+static void resetProc() { if (!savedEnviron) savedEnviron = environ; environ = savedEnviron; for (Child* c : children) delete c; children.clear(); nextPid = 4000; pipeCap = 65536; childMain = 0; memset(inVfork, 0, sizeof inVfork); }
+static void restoreEnviron() { if (savedEnviron) environ = savedEnviron; }
+static struct Reg { Reg() { addResetHook(resetProc); addEndHook(restoreEnviron); } } reg;
 
 void setPipeCapacity(size_t n) { pipeCap = n ? n : 1; }
 void setChildMain(void (*fn)(Child*)) { childMain = fn; }
@@ -106,6 +108,7 @@ pid_t __wrap_waitpid(pid_t pid, int* status, int options) {
   HostG h; chargeCall(); yieldSync();
   Child* c = findChild(pid);
   if (!c || c->reaped) { errno = ECHILD; return -1; }
+  if (!c->exited && !(options & WNOHANG) && choose(K_EINTR, 2)) { fault("eintr_waitpid"); logEvent("waitpid_eintr", pid); errno = EINTR; return -1; }   /* a handled signal interrupts a waitpid that would block; the child stays waitable */
   while (!c->exited) { if (options & WNOHANG) return 0; netBlock("waitpid", -1); }
   c->reaped = true; if (status) *status = c->status;
   logEvent("waitpid", pid, c->status);
